@@ -164,7 +164,10 @@ def build_ffi(items):
     ffi = cffi.FFI()
     for it in items:
         if 'c' in it:
-            ffi.cdef(''.join(it['c']))
+            if it.get('o'):
+                ffi.cdef(''.join(it['c']), override=True)
+            else:
+                ffi.cdef(''.join(it['c']))
         else:
             ffi.include(build_ffi(it['inc']))
     return ffi
@@ -265,6 +268,8 @@ def _applicable(inp):
         out += ['cdefmove', 'cdefmove', 'cdefmove', 'incmove', 'incmove']
         if 'c' in inp['cdefs'][0]:
             out += ['srcmove', 'srcmove']
+        if any('c' in it and 'struct' not in ''.join(it['c']) for it in inp['cdefs']):
+            out += ['reapply', 'reapply']
     if _rel_lists(inp['kw']):
         out += ['relmove', 'relmove', 'relmove']
     return out * 2 + ['edit', 'edit', 'tag', 'engine', 'relmove']
@@ -363,6 +368,15 @@ def _apply(kind, inp, draw):
                         out.append((n, j))
         return out
 
+    if kind == 'reapply':
+        # the text of an earlier top-level cdef() is applied once more with override=True (a struct
+        # definition cannot be repeated): one more cdef() call, so another input and another key
+        cands = [it for it in inp['cdefs'] if 'c' in it and 'struct' not in ''.join(it['c'])]
+        if not cands:
+            return None
+        it = cands[pick(len(cands))]
+        inp['cdefs'].append({'c': list(it['c']), 'o': True})
+        return inp
     if kind == 'reorder':
         ds = [n for _, n in nodes if n[0] == 'd' and len(n[1]) >= 2]
         if not ds:
